@@ -64,7 +64,9 @@ static polyseed_data* obtain(pv_rng* rng, const pv_mseed* m, int how, unsigned c
         return st == POLYSEED_OK ? s : NULL; }
     case 3: {
         s = pv_seed_from_model(m);
-        if (s) { pv_api_crypt(s, "p\xc3\xa4ss"); pv_api_crypt(s, "p\xc3\xa4ss"); }
+        /* encrypted and decrypted while a different set of user features is enabled: the seed must keep its own bits */
+        if (s) { bool other = pv_randn(rng, 2); if (other) { polyseed_enable_features(pv_randn(rng, 7)); PV_COUNT("paths.crypt_under_a_different_feature_mask", 1); }
+                 pv_api_crypt(s, "p\xc3\xa4ss"); if (other) polyseed_enable_features(pv_randn(rng, 7)); pv_api_crypt(s, "p\xc3\xa4ss"); if (other) polyseed_enable_features(7); }
         return s; }
     default: {       /* an encrypted copy is stored, loaded and decrypted */
         s = pv_seed_from_model(m);
@@ -93,7 +95,10 @@ static void run_keygen(uint64_t idx, pv_rng* rng) {
     if (protect) { key = g_page + g_ps + (g_ps - (long)ks) * (long)(idx & 1); memset(g_page, 0xEE, (size_t)g_ps * 3); }
     else { block = malloc(ks ? ks : 1); key = block; memset(key, 0xEE, ks ? ks : 1); }
     pv_w->kdf_protect = protect;
+    bool other_mask = idx % 7 == 3;
+    if (other_mask) polyseed_enable_features(pv_randn(rng, 7));      /* keygen does not depend on the enabled-feature mask */
     pv_api_keygen(s, coin, ks, key);
+    if (other_mask) polyseed_enable_features(7);
     pv_w->kdf_protect = 0;
     if (protect) mprotect(g_page + g_ps, (size_t)g_ps, PROT_READ | PROT_WRITE);
     PV_COUNT("evaluations", 1); pv_countf(1, "keygen.path.%s", HOW[how]); pv_countf(1, "keygen.keysize.%zu", ks);
